@@ -14,7 +14,7 @@ RULE = (
     "non-trivial = the reference circulation vector is non-zero and distinct (state, outcome digest)"
 )
 ASSUMPTIONS = [
-    "finite alphabets for the real-valued inputs (see axes); shapes nx<=4, ny<=7, <=3 surfaces",
+    "finite alphabets for the real-valued inputs (see axes, both signs of alpha and beta); shapes nx<=4, ny<=7, <=3 surfaces (identical and mixed shapes); C-wing tips folded to 120 deg, surfaces stored from +y to -y, surfaces at incidence",
     "reference solver oasmc/ref/ref_vlm.py (self-tested against Biot-Savart quadrature) is correct",
     "OpenMDAO, NumPy, SciPy trusted",
 ]
